@@ -208,8 +208,9 @@ def run_model(case):
             Pj = np.asarray(um.gradient([Fj, svj])[0])
             Aj = np.broadcast_to(np.asarray(um.hessian([Fj, svj])[0]), (3, 3, 3, 3, 1, 1))
             c.trans += 2
-            e1 = np.abs(Pj[..., 0, 0] - P[..., j, 0]).max() / max(np.abs(P[..., j, 0]).max(), 1e-8)
-            e2 = np.abs(Aj[..., 0, 0] - np.broadcast_to(A, Afd.shape)[..., j, 0]).max() / max(np.abs(Aj).max(), 1e-8)
+            # scale: magnitude over the whole lattice (a state with analytically zero stress carries only round-off)
+            e1 = np.abs(Pj[..., 0, 0] - P[..., j, 0]).max() / max(np.abs(P).max(), c.floor)
+            e2 = np.abs(Aj[..., 0, 0] - np.broadcast_to(A, Afd.shape)[..., j, 0]).max() / max(np.abs(A).max(), c.floor)
             if not (e1 < 1e-9 and e2 < 1e-9):
                 c.bad(f"{slab}/batch/F={labels[j]}", "batched evaluation differs from the single-item evaluation (cross-talk)", dict(stress=float(e1), tangent=float(e2)), 0, 1e-9)
         # out-buffer histories
